@@ -22,6 +22,7 @@ EXPECTED_MISS = {("probes/C02", "p6.diff"): "changes the version-marker scheme b
                  ("probes/C14", "p4.diff"): "only differs for a configured batch size of 0",
                  ("probes/C14", "p6.diff"): "upload retry reporting: outside the property",
                  ("probes/C07-r2", "p2.diff"): "a stricter-than-necessary merge refusal: not decided (the natural repair of the recorded merge-unbounded finding has the same shape)",
+                 ("probes/C01-r2", "p1.diff"): "an unnecessary eviction on a duplicate put: the capacity policy (C10.put.prune-last fires), not C01",
                  ("probes/C15-r2", "p5.diff"): "vault read with Quorum::One: only one version is ever received, so 'highest among those received' holds as stated"}
 
 args = sys.argv[1:]
